@@ -62,7 +62,34 @@ fn observe_element(e: &xml_dom::XmlElement, ask: &[String]) -> J {
     json!({"st": st, "len": len, "attrs": attrs, "get": get})
 }
 
-fn observe_doc(doc: &xml_dom::XmlDocument, ask: &[Vec<String>]) -> (String, Vec<J>) {
+/// XPath view of the attributes of one element (`path` selects it): count(path/@*) and
+/// string(path/@name) for every asked name, through xml_xpath::query (the way xq calls it).
+fn observe_xpath(doc: &xml_dom::XmlDocument, path: &str, ask: &[String]) -> J {
+    let run = |expr: String| {
+        guarded(|| {
+            let mut ctx = xml_xpath::eval::model::Context::default();
+            match xml_xpath::query(doc.clone(), expr.as_str(), &mut ctx) {
+                Ok(xml_xpath::eval::model::Value::Number(n)) => ("num", format!("{}", n)),
+                Ok(xml_xpath::eval::model::Value::Text(t)) => ("str", t),
+                Ok(_) => ("other", String::new()),
+                Err(_) => ("err", String::new()),
+            }
+        })
+        .unwrap_or(("panic", String::new()))
+    };
+    let (st, n) = run(format!("count({}/@*)", path));
+    let count: i64 = if st == "num" { n.parse::<i64>().unwrap_or(-1) } else { -1 };
+    let strs: Vec<J> = ask
+        .iter()
+        .map(|name| {
+            let (st, v) = run(format!("string({}/@{})", path, name));
+            json!({"n": string_to_cps(name), "v": string_to_cps(&v), "st": if st == "str" { "ok" } else { st }})
+        })
+        .collect();
+    json!({"st": if st == "num" { "ok" } else { st }, "count": count, "str": strs})
+}
+
+fn observe_doc(doc: &xml_dom::XmlDocument, ask: &[Vec<String>], xpath: bool) -> (String, Vec<J>) {
     let root = match guarded(|| doc.document_element()) {
         Ok(Ok(r)) => r,
         Ok(Err(_)) => return ("noroot".to_string(), vec![]),
@@ -70,6 +97,9 @@ fn observe_doc(doc: &xml_dom::XmlDocument, ask: &[Vec<String>]) -> (String, Vec<
     };
     let empty: Vec<String> = vec![];
     let mut els = vec![observe_element(&root, ask.first().unwrap_or(&empty))];
+    if xpath {
+        els[0]["xp"] = observe_xpath(doc, "/*", ask.first().unwrap_or(&empty));
+    }
     let kids = guarded(|| {
         let mut v = vec![];
         for k in root.child_nodes().iter() {
@@ -82,7 +112,12 @@ fn observe_doc(doc: &xml_dom::XmlDocument, ask: &[Vec<String>]) -> (String, Vec<
     match kids {
         Ok(kids) => {
             for (i, k) in kids.iter().enumerate() {
-                els.push(observe_element(k, ask.get(i + 1).unwrap_or(&empty)));
+                let mut o = observe_element(k, ask.get(i + 1).unwrap_or(&empty));
+                if xpath {
+                    let path = format!("/*/*[{}]", i + 1);
+                    o["xp"] = observe_xpath(doc, &path, ask.get(i + 1).unwrap_or(&empty));
+                }
+                els.push(o);
             }
             ("ok".to_string(), els)
         }
@@ -105,7 +140,8 @@ fn observe_view(text: &str, expanded: bool, ask: &[Vec<String>]) -> J {
                 if !rest.is_empty() {
                     ("rest".to_string(), vec![])
                 } else {
-                    observe_doc(&doc, ask)
+                    // XPath is evaluated on the text-expanded document, as xq does
+                    observe_doc(&doc, ask, expanded)
                 }
             }
             Err(_) => ("err".to_string(), vec![]),
@@ -169,6 +205,26 @@ fn is_fast(views: &J, expect: &J, ask: &[Vec<String>]) -> bool {
             want.sort();
             if got != want {
                 return false;
+            }
+            if view["view"] == "exp" {
+                let xp = &o["xp"];
+                if xp["st"] != "ok" || xp["count"].as_i64() != Some(x.len() as i64) {
+                    return false;
+                }
+                let strs = xp["str"].as_array().unwrap();
+                if strs.len() != ask.get(i).map(|a| a.len()).unwrap_or(0) {
+                    return false;
+                }
+                for g in strs {
+                    if g["st"] != "ok" {
+                        return false;
+                    }
+                    let n = cps_to_string(&g["n"]);
+                    let w = want.iter().find(|w| w.0 == n).map(|w| w.1.clone()).unwrap_or_default();
+                    if cps_to_string(&g["v"]) != w {
+                        return false;
+                    }
+                }
             }
             let gets = o["get"].as_array().unwrap();
             if gets.len() != ask.get(i).map(|a| a.len()).unwrap_or(0) {
